@@ -965,6 +965,15 @@ func (c *evalCtx) call(x *ast.CallExpr) *sv {
 			}
 		}
 		return boolSV("(and " + strings.Join(conj, " ") + ")")
+	case "existed":
+		// existed(x): the object x refers to existed when the function was entered
+		need(1)
+		v := c.eval(args[0])
+		r := refOf(v.sort, c.rv1(v))
+		if r == "" {
+			c.fail("existed of non-reference sort %q", v.sort)
+		}
+		return boolSV("(existed " + r + ")")
 	case "unchanged":
 		var conj []string
 		for _, a := range args {
